@@ -651,4 +651,13 @@ def rule_any(ctx: Ctx, rule: str = "C09.any"):
     rep.floor(rule, "iterations of the any() expansion", n, 2)
 
 
-RULES = [rule_calls, rule_pred, rule_visit, rule_internal, rule_any]
+def rule_any_expanded_for_every_event(ctx: Ctx):
+    """C09.any: the graph that is validated contains the per-state copies of every from_.any() transition, whatever the event
+    name (also one that another transition or a base class already registered)."""
+    from . import c15
+
+    c15.rule_events(ctx, rule="C09.any")
+    c15.rule_wiring(ctx, rule="C09.any")
+
+
+RULES = [rule_calls, rule_pred, rule_visit, rule_internal, rule_any, rule_any_expanded_for_every_event]
